@@ -86,6 +86,7 @@ Proof.
   - pose proof (expire_colls_ok x (map fst (s_colls s)) s [] Hs) as H.
     destruct (expire_colls s x (map fst (s_colls s)) []) as [s' evs]. exact H.
   - destruct (coll_id s coll); exact Hs.
+  - destruct (coll_id s coll); exact Hs.
   - exact Hs.
 Qed.
 
